@@ -601,7 +601,9 @@ def strat_mul(env, cfg):
         op = draw(st.sampled_from(have(x, MULS)))
         P = draw(point_spec(x, allow_outside=op in NONREDUCING))
         k = draw(ints.digit(x.F.W)) if op in DIG else draw(sc)
-        return dict(cid=x.cid, op=op, P=P, k=k, alias=draw(st.sampled_from([0, 0, 1])),
+        # the point may be the result of a group operation: affine or the build's own projective system
+        rp = draw(rep_spec(x, x.kinds_native)) if op not in GEN else BASICREP
+        return dict(cid=x.cid, op=op, P=P, k=k, rp=rp, alias=draw(st.sampled_from([0, 0, 1])),
                     poison=draw(st.integers(0, 255)), seed=draw(st.binary(min_size=8, max_size=8)))
     return s()
 
@@ -628,7 +630,7 @@ def run_mul(env, cfg, case):
     what = "%s[cid=%d]" % (opname(x, op), x.cid)
 
     def build(p):
-        sp = p.new("EP2", enc(x, P, BASICREP))
+        sp = p.new("EP2", enc(x, P, case.get("rp") or BASICREP))
         sr = sp if alias else p.new("EP2", enc(x, x.G2, BASICREP))
         if op in GEN:
             sk = p.bn(k)
@@ -677,7 +679,7 @@ def strat_fix(env, cfg):
         i = draw(st.sampled_from([j for j, (a_, b_) in enumerate(FIX) if have(x, [a_, b_]) == [a_, b_]]))
         P = draw(st.one_of(st.just({"m": 1}), point_spec(x, allow_outside=False)))
         ks = [draw(sc) for _ in range(draw(st.integers(1, 3)))]
-        return dict(cid=x.cid, alg=i, P=P, ks=ks, poison=draw(st.integers(0, 255)))
+        return dict(cid=x.cid, alg=i, P=P, ks=ks, rp=draw(rep_spec(x, x.kinds_native)), poison=draw(st.integers(0, 255)))
     return s()
 
 
@@ -694,7 +696,7 @@ def run_fix(env, cfg, case):
     what = "%s/%s[cid=%d]" % (opname(x, pre), opname(x, fix), x.cid)
 
     def build(p):
-        sp = p.new("EP2", enc(x, P, BASICREP))
+        sp = p.new("EP2", enc(x, P, case.get("rp") or BASICREP))
         st_ = p.new("EP2V", vec(x, [], n=tabsz))
         p.call(opname(x, pre), st_, sp)
         outs = []
@@ -743,21 +745,30 @@ def strat_sim(env, cfg):
     @st.composite
     def s(draw):
         op = draw(st.sampled_from(have(x, SIM2 + SIMN + SIMN)))
+        big = False
         if op in SIM2:
             npts = 2
+        elif op in ("ep2_mul_sim_lot", "g2_mul_sim_lot") and draw(st.sampled_from([0] * 9 + [1])):
+            # the many-point (bucket) branch widens its window with the number of points: sizes around the powers
+            # of two; points are small multiples of G2, so the reference is one multiplication by sum k_i m_i
+            npts = draw(st.sampled_from([15, 16, 17, 31, 32, 33, 40, 63, 64, 65, 100]))
+            big = True
         else:
             npts = draw(st.sampled_from([0, 1, 2, 3, 4, 7, 8, 9, 10, 11, 12]))
         pts, ks = [], []
         for i in range(npts):
             rel = draw(st.integers(0, 5)) if i else 9
-            if rel == 0:
+            if big:
+                pts.append({"m": draw(st.sampled_from([1, 2, 3, 5, 7, 11, 13, 16, 17, 29, 31, 64]))})
+            elif rel == 0:
                 pts.append(dict(pts[draw(st.integers(0, i - 1))]))                 # repeated point
             elif rel == 1:
                 pts.append(dict(pts[draw(st.integers(0, i - 1))], rel="neg"))      # the negative of an earlier point
             else:
                 pts.append(draw(point_spec(x, allow_outside=op in SIMDIG)))
             ks.append(draw(ints.digit(x.F.W)) if op in SIMDIG else draw(sc))
-        return dict(cid=x.cid, op=op, pts=pts, ks=ks, poison=draw(st.integers(0, 255)))
+        reps = [draw(rep_spec(x, x.kinds_native)) for _ in range(npts)] if draw(st.sampled_from([0, 1])) else None
+        return dict(cid=x.cid, op=op, pts=pts, ks=ks, reps=reps, poison=draw(st.integers(0, 255)))
     return s()
 
 
@@ -774,15 +785,21 @@ def run_sim(env, cfg, case):
         raise Unsupported()
     base = [resolve(x, s_) for s_ in specs]
     pts = [E.neg(P) if ng else P for P, ng in zip(base, negs)]
-    want = None
-    for s_, P, ng, k in zip(specs, base, negs, ks):
-        want = E.add(want, ref_mul(x, -k if ng else k, s_, P))
+    if len(specs) > 12 and all("m" in s_ for s_ in specs):
+        want = gmul(x, sum((-k if ng else k) * s_["m"] for s_, ng, k in zip(specs, negs, ks)))
+    else:
+        want = None
+        for s_, P, ng, k in zip(specs, base, negs, ks):
+            want = E.add(want, ref_mul(x, -k if ng else k, s_, P))
+    reps = case.get("reps") or [BASICREP] * len(specs)
+    if op in SIMGEN and reps:
+        reps = [BASICREP] + list(reps[1:])
     what = "%s[cid=%d](n=%d)" % (opname(x, op), x.cid, len(pts))
 
     def build(p):
         sr = p.new("EP2", enc(x, x.G2, BASICREP))
         if op in SIM2:
-            s0, s1 = p.new("EP2", enc(x, pts[0], BASICREP)), p.new("EP2", enc(x, pts[1], BASICREP))
+            s0, s1 = p.new("EP2", enc(x, pts[0], reps[0])), p.new("EP2", enc(x, pts[1], reps[1]))
             k0, k1 = p.bn(ks[0]), p.bn(ks[1])
             if op in SIMGEN:
                 p.call(opname(x, op), sr, k0, s1, k1)
@@ -792,7 +809,7 @@ def run_sim(env, cfg, case):
                 ins = [s0, k0, s1, k1]
         else:
             n = len(pts)
-            sv = p.new("EP2V", vec(x, pts))
+            sv = p.new("EP2V", vec(x, pts, reps=reps))
             if op in SIMDIG:
                 db = x.F.W // 8
                 sk = p.buf(b"".join(k.to_bytes(db, "little") for k in ks))
